@@ -110,13 +110,13 @@ def names_from_introspection(schema):
     return names
 
 
-def run_sequence(beh):
+def run_sequence(beh, style="constructor"):
     from py_gql.schema.transforms import CamelCaseSchemaTransform, VisibilitySchemaTransform, transform_schema
     from py_gql.sdl import extend_schema
     out = []
     ids = opsreplay.Ids()
     vals = beh["schemas"]
-    live = {1: opsreplay.realize(vals[0], ids)}
+    live = {1: opsreplay.realize(vals[0], ids, style)}
     origin = {1: "base"}
     seqdesc = []
 
@@ -205,12 +205,13 @@ def _worker(behs):
     n = 0
     for b in behs:
         n += 1
-        try:
-            divs, seq = run_sequence(b)
-        except Exception as e:
-            divs, seq = [("ops/harness-exception/%s" % type(e).__name__, {"error": repr(e)})], []
-        for k, d in divs:
-            res.setdefault(k, dict(d, sequence=[(s["op"], s["src"], s["arg"]["p"], s["arg"]["t"]) for s in b["hist"]]))
+        for style in ("constructor", "registered"):
+            try:
+                divs, seq = run_sequence(b, style)
+            except Exception as e:
+                divs, seq = [("ops/harness-exception/%s" % type(e).__name__, {"error": repr(e)})], []
+            for k, d in divs:
+                res.setdefault(k, dict(d, resolvers=style, sequence=[(s["op"], s["src"], s["arg"]["p"], s["arg"]["t"]) for s in b["hist"]]))
     return res, n
 
 
